@@ -21,7 +21,7 @@ ASSUMPTIONS = [
 REQUIRED = {t: ['event:bilform-acausal', 'event:bilform-causal', 'event:bilform-time-touch', 'path:inline', 'path:serial', 'path:pool',
                 'matrix:rectangular', 'matrix:asymmetric-pair-seen', 'eval:evaluate', 'eval:evaluate_exact', 'eval:potential',
                 'eval:t-at-start', 'eval:t-at-end', 'eval:t-before-start', 'switch:exact', 'switch:quad', 'event:tiny-positive',
-                'curve:UnitSquare', 'curve:PiSquare', 'curve:LShape', 'curve:Circle', 'curve:UnitInterval', 'source:repo-test-suite']
+                'curve:UnitSquare', 'curve:PiSquare', 'curve:LShape', 'curve:Circle', 'curve:UnitInterval', 'source:repo-test-suite', 'source:driver']
             for t in ('quick', 'thorough')}
 TIMEOUT = {'quick': 900, 'thorough': 5400}
 CURVES = ['UnitSquare', 'PiSquare', 'LShape', 'Circle', 'UnitInterval']
@@ -35,6 +35,12 @@ def plan(tier, seed):
             specs.append({'name': 'mesh-%s-%d' % (c, k), 'curve': c, 'rseed': seed * 389 + k,
                           'n_ops': (24 if tier == 'quick' else 60) + 8 * k, 'n_eval': 40 if tier == 'quick' else 200})
     specs.append({'name': 'suite-sl-tests', 'mode': 'suite', 'files': ['src/h_h2_error_estimator_test.py', 'src/error_estimator_test.py']})
+    drv = [('Dirichlet', 'Circle', 'anisotropic', False), ('Singular', 'LShape', 'isotropic', True), ('MildSingular', 'UnitSquare', 'uniform', False)]
+    if tier == 'thorough':
+        drv += [('Smooth', 'PiSquare', 'anisotropic', True), ('Dirichlet', 'LShape', 'anisotropic', False), ('MildSingular', 'PiSquare', 'isotropic', True)]
+    for p, d, r, x in drv:
+        specs.append({'name': 'driver-%s-%s' % (p, d), 'mode': 'driver', 'problem': p, 'domain': d, 'refinement': r, 'exact': x,
+                      'loops': 2 if tier == 'quick' else 3})
     return specs
 
 
@@ -46,6 +52,8 @@ def run_shard(spec, acc):
     if spec.get('mode') == 'suite':
         from ..workloads.suite import run_suite
         return run_suite(acc, 'C04', spec['files'])
+    if spec.get('mode') == 'driver':
+        return run_driver_shard(spec, acc)
     import multiprocessing as mp
     import numpy as np
     from ..monitor import repo_frame
@@ -355,3 +363,53 @@ def eval_lower_bound(geo, t, xh, elem):
     if t > b:
         k -= mp.e1(r / (4 * (mp.mpf(t) - b)))
     return k / (4 * mp.pi) * (y1 - y0)
+
+
+def run_driver_shard(spec, acc):
+    """The matrix the real driver hands to numpy.linalg.solve (assembled by its process pool): Volterra structure and sign."""
+    import numpy as np
+    from ..monitor import repo_frame
+    from ..oracles import refint
+    from ..workloads.driver import run_driver
+    argv = ['--problem', spec['problem'], '--domain', spec['domain'], '--refinement', spec['refinement'], '--no-h-h2']
+    if spec['exact']:
+        argv.append('--single-layer-exact')
+    caps, err = run_driver(argv, loops=spec['loops'])
+    wit0 = {'driver_argv': argv}
+    if err is not None:
+        fr = repo_frame(err)
+        if fr is None:
+            raise err
+        acc.violation('driver-raised:%s:%s' % (fr[0], type(err).__name__), 'example.py raised %s at %s:%d' % (type(err).__name__, fr[1], fr[2]), wit0)
+    geo = refint.Geo(spec['domain'])
+    for li, cap in enumerate(caps):
+        A = cap['solve'][0]
+        elems = cap['elems']
+        if A.shape != (len(elems), len(elems)):
+            acc.violation('driver-matrix-shape', 'matrix %r for %d elements' % (A.shape, len(elems)), dict(wit0, loop=li))
+            continue
+        n_asym = 0
+        for i, te in enumerate(elems):
+            for j, tr in enumerate(elems):
+                v = float(A[i, j])
+                acc.case('%s|%d|%d|%d' % (spec['name'], li, i, j), None)
+                w = dict(wit0, loop=li, test=ekey(te), trial=ekey(tr), value=v)
+                if te.time_interval[1] <= tr.time_interval[0]:
+                    acc.seen('event:bilform-acausal')
+                    if v != 0.0:
+                        acc.violation('acausal-entry-nonzero:driver', 'driver matrix [%d,%d] = %r for an acausal pair' % (i, j, v), w)
+                    if A[j, i] != 0.0:
+                        n_asym += 1
+                else:
+                    acc.seen('event:bilform-causal')
+                    scale = (refint.diagonal(geo, te.h_t, te.h_x) * refint.diagonal(geo, tr.h_t, tr.h_x))**0.5
+                    if not np.isfinite(v) or v < -1e-15 * scale:
+                        acc.violation('causal-entry-negative:driver:%s' % ('exact' if spec['exact'] else 'quad'),
+                                      'driver matrix [%d,%d] = %r' % (i, j, v), w)
+                    elif v <= 0 and not (spec['exact'] and te.gamma_space is tr.gamma_space) and \
+                            refint.lower_bound_positive(geo, te.time_interval, te.space_interval, tr.time_interval, tr.space_interval):
+                        acc.violation('causal-entry-zero:driver', 'driver matrix [%d,%d] = %r although the exact value is positive' % (i, j, v), w)
+        acc.seen('source:driver')
+        if n_asym:
+            acc.seen('matrix:asymmetric-pair-seen')
+    acc.sample({'driver_argv': argv, 'loops': len(caps), 'sizes': [len(c['elems']) for c in caps]}, spec['name'])
